@@ -70,6 +70,8 @@ pub struct RecvCfg {
     pub capacity: usize,
     pub trailing: usize,
     pub bound: u32,
+    /// index of a message whose bytes are not a valid encoding (1-byte messages: 31 is not an Fp31)
+    pub bad: Option<usize>,
 }
 
 fn one<M>(c: RecvCfg, cx: &mut Choices, obs: &mut Obs) -> Result<(), String>
@@ -81,6 +83,9 @@ where
     for i in 0..c.msgs {
         let mut b = GenericArray::<u8, <M as Serializable>::Size>::default();
         M::truncate_from((i + 1) as u128).serialize(&mut b);
+        if c.bad == Some(i) {
+            b.iter_mut().for_each(|x| *x = 0xff);
+        }
         bytes.extend_from_slice(&b);
     }
     bytes.extend(std::iter::repeat(1u8).take(c.trailing));
@@ -95,7 +100,7 @@ where
         let res = Rc::clone(&results);
         ex.spawn(async move {
             let v = rx.recv::<M, _>(i).await;
-            res.borrow_mut()[i] = Some(v.map_err(|e| e.to_string()));
+            res.borrow_mut()[i] = Some(v.map_err(|e| format!("{e:?}")));
         });
     }
     loop {
@@ -128,7 +133,9 @@ where
     }
     for i in 0..c.msgs {
         match results.borrow()[i].as_ref() {
-            Some(Ok(v)) if *v == M::truncate_from((i + 1) as u128) => {}
+            // the undecodable message fails the request for its own index and no other
+            Some(Err(e)) if c.bad == Some(i) && e.contains("DeserializeFailed") => {}
+            Some(Ok(v)) if c.bad != Some(i) && *v == M::truncate_from((i + 1) as u128) => {}
             other => return Err(format!("recv({i}) returned {other:?}, expected message {}; chunks {:?}", i + 1, chunks.borrow())),
         }
     }
@@ -177,7 +184,7 @@ fn run_cfg(c: RecvCfg, cx: &mut Choices, obs: &mut Obs) -> Result<(), String> {
 }
 
 fn cfg_json(c: RecvCfg) -> serde_json::Value {
-    json!({"msgs":c.msgs,"size":c.size,"capacity":c.capacity,"trailing":c.trailing,"bound":c.bound})
+    json!({"msgs":c.msgs,"size":c.size,"capacity":c.capacity,"trailing":c.trailing,"bound":c.bound,"bad":c.bad})
 }
 
 #[test]
@@ -191,6 +198,7 @@ fn run() {
             capacity: v["capacity"].as_u64().unwrap() as usize,
             trailing: v["trailing"].as_u64().unwrap() as usize,
             bound: v["bound"].as_u64().unwrap() as u32,
+            bad: v["bad"].as_u64().map(|x| x as usize),
         };
         let trace: Vec<u32> = rep["choices"].as_array().unwrap().iter().map(|x| x.as_u64().unwrap() as u32).collect();
         let mut obs = Obs::default();
@@ -215,9 +223,15 @@ fn run() {
           (1, 3, 2, 2), (2, 3, 2, 2), (3, 3, 2, 1), (3, 3, 3, 1), (4, 3, 2, 0)]
     };
     for &(msgs, size, capacity, bound) in grid {
-        cfgs.push(RecvCfg { msgs, size, capacity, trailing: 0, bound });
+        cfgs.push(RecvCfg { msgs, size, capacity, trailing: 0, bound, bad: None });
         if size > 1 && msgs <= 3 {
-            cfgs.push(RecvCfg { msgs, size, capacity, trailing: size - 1, bound: bound.min(1) });
+            cfgs.push(RecvCfg { msgs, size, capacity, trailing: size - 1, bound: bound.min(1), bad: None });
+        }
+    }
+    // one undecodable message at every position of short streams
+    for msgs in 2..=if thorough { 5 } else { 4 } {
+        for bad in 0..msgs {
+            cfgs.push(RecvCfg { msgs, size: 1, capacity: 2, trailing: 0, bound: if msgs <= 3 { 2 } else { 1 }, bad: Some(bad) });
         }
     }
     r.flag("exhaustive", true);
@@ -243,6 +257,9 @@ fn run() {
         }
         if let Some(m) = st.machinery {
             r.machinery(&format!("recv {c:?}: {m}"));
+        }
+        if c.bad.is_some() {
+            r.inc("undecodable_message_configs");
         }
         if let Some((trace, e)) = st.failure {
             let kind = if e.contains("lost wake-up") { "lost-wakeup" } else if e.contains("panic") { "panic" } else { "wrong-message" };
